@@ -9,7 +9,6 @@ import (
 	"github.com/libsv/go-bt/v2"
 	"github.com/libsv/go-bt/v2/bscript"
 	"github.com/libsv/go-bt/v2/bscript/interpreter"
-	"github.com/libsv/go-bt/v2/bscript/interpreter/scriptflag"
 	"pgregory.net/rapid"
 
 	"verif/harness/gen"
@@ -83,9 +82,9 @@ func checkSeq(ctx *pbt.Ctx, c SeqCase) error {
 		var panicked any
 		func() {
 			defer func() { panicked = recover() }()
-			execErr = eng.Execute(
-				interpreter.WithTx(tx, i, &bt.Output{Satoshis: p.Amount, LockingScript: lockObj}),
-				interpreter.WithFlags(scriptflag.Flag(flags)), interpreter.WithDebugger(rec))
+			opts := append([]interpreter.ExecutionOptionFunc{interpreter.WithTx(tx, i, &bt.Output{Satoshis: p.Amount, LockingScript: lockObj})},
+				libexec.FlagOpts(flags, len(p.Lock)+k)...)
+			execErr = eng.Execute(append(opts, interpreter.WithDebugger(rec))...)
 		}()
 		id := fmt.Sprintf("verification %d of %d (input %d of one %d-input transaction object on one engine; order %v): unlock=%x lock=%x flags=%#x amount=%d [%s]",
 			k+1, len(c.Order), i, n, c.Order, []byte(unlock), []byte(p.Lock), uint32(flags), p.Amount, p.Desc)
